@@ -4,7 +4,7 @@
    Theorems quantify over ALL tries in normal form / ALL operation sequences / ALL byte strings. *)
 From Coq Require Import Sorted.
 From NG Require Import Common.Tactics Trie.Model Trie.Lemmas Trie.PutDelete Trie.Unique Trie.Batch Trie.History
-  Trie.Range Trie.Collapse Trie.Merkle.
+  Trie.Range Trie.Collapse Trie.Merkle Trie.Store Trie.StoreProofs.
 
 (* ---------- byte keys are nibble paths (toNibbles), injectively ---------- *)
 
@@ -150,6 +150,67 @@ Theorem C10_proof_sound_empty : forall (H : bytes -> bytes) p proofs v,
 Proof. exact proof_sound_empty. Qed.
 Print Assumptions C10_proof_sound_empty.
 
+(* ---------- Flush, Collapse, lazy expansion, reload from the store (Trie/Store.v) ---------- *)
+
+(* the decoder inverts the encoder: a node of a normal-form trie decodes to itself with its children as hash
+   references, consuming exactly its encoding *)
+Theorem C10_decode_enc : forall (H : bytes -> bytes), (forall x, length (H x) = 32) ->
+  forall f t r, 1 <= f -> NFne t -> bounded t -> decode (S f) 0 (enc H t ++ r) = Some (shallow H t, r).
+Proof. exact decode_shallow. Qed.
+Print Assumptions C10_decode_enc.
+
+(* Flush keeps the store well-keyed, stores every node of the trie, and keeps what was stored *)
+Theorem C10_flush_store : forall (H : bytes -> bytes) st t, store_wf H st ->
+  store_wf H (flush H t st) /\ stored H (flush H t st) t /\ (forall t', stored H st t' -> stored H (flush H t st) t').
+Proof. exact flush_store. Qed.
+Print Assumptions C10_flush_store.
+
+(* Trie.Collapse d produces a partial collapse *)
+Theorem C10_collapse_partial : forall (H : bytes -> bytes) t d, pcol H (collapse H d t) t.
+Proof. exact pcol_collapse. Qed.
+Print Assumptions C10_collapse_partial.
+
+(* for a store that contains Flush of t: expanding ANY partial collapse of t gives t back, or two different byte
+   strings with the same double hash are exhibited *)
+Theorem C10_flush_then_resolve : forall (H : bytes -> bytes), (forall x, length (H x) = 32) ->
+  forall st t, NF t -> bounded t -> store_wf H st -> stored H st t ->
+  forall c fuel, pcol H c t -> height t + 1 <= fuel -> expand fuel st c = Some t \/ collision H.
+Proof. exact flush_then_resolve. Qed.
+Print Assumptions C10_flush_then_resolve.
+
+(* Get / Put / Delete / PutBatch / GetProof / Seek on a partial collapse of t, fetching hash nodes from the store
+   where trie.go, batch.go, proof.go and billet.go do, never fail and return what they return on t, modulo
+   collapse; in particular the same root *)
+Theorem C10_collapsed_ops_agree : forall (H : bytes -> bytes), (forall x, length (H x) = 32) ->
+  forall st t, NF t -> bounded t -> store_wf H st -> stored H st t ->
+  forall c fuel, pcol H c t -> height t + 1 <= fuel ->
+  collision H \/
+  ((forall p, sget fuel st c p = content t p) /\
+   (forall p v, exists c', sput fuel st c p v = Some c' /\ pcol H c' (put t p v) /\ root H c' = root H (put t p v)) /\
+   (forall p, exists c', sdelete fuel st c p = Some c' /\ pcol H c' (delete t p) /\ root H c' = root H (delete t p)) /\
+   (forall kv, kv_ok kv -> exists c', sput_batch st c kv = Some c' /\ pcol H c' (put_batch t kv) /\ root H c' = root H (put_batch t kv)) /\
+   (forall p, sget_proof H fuel st c p = get_proof H t p) /\
+   (forall P S bw, sseek fuel st c P S bw = seek t P S bw) /\
+   root H c = root H t).
+Proof. exact collapsed_ops_agree. Qed.
+Print Assumptions C10_collapsed_ops_agree.
+
+(* reopening the trie from its root: HashNode(root) over the store answers every read, range search and proof as t
+   does, expands to t, and updates continue with the right roots *)
+Theorem C10_reload_from_root : forall (H : bytes -> bytes), (forall x, length (H x) = 32) ->
+  forall st t, NF t -> bounded t -> store_wf H st -> stored H st t ->
+  forall fuel, NFne t -> height t + 1 <= fuel ->
+  collision H \/
+  (expand fuel st (HashRef (root H t)) = Some t /\
+   (forall p, sget fuel st (HashRef (root H t)) p = content t p) /\
+   (forall p, sget_proof H fuel st (HashRef (root H t)) p = get_proof H t p) /\
+   (forall P S bw, sseek fuel st (HashRef (root H t)) P S bw = seek t P S bw) /\
+   (forall p v, exists c', sput fuel st (HashRef (root H t)) p v = Some c' /\ root H c' = root H (put t p v)) /\
+   (forall p, exists c', sdelete fuel st (HashRef (root H t)) p = Some c' /\ root H c' = root H (delete t p)) /\
+   (forall kv, kv_ok kv -> exists c', sput_batch st (HashRef (root H t)) kv = Some c' /\ root H c' = root H (put_batch t kv))).
+Proof. exact reload_from_root. Qed.
+Print Assumptions C10_reload_from_root.
+
 (* ---------- non-vacuity: the hypotheses are satisfied by concrete, non-trivial states ---------- *)
 
 Definition ex_ops1 : list op :=
@@ -183,3 +244,18 @@ Example C10_ex_proof :
   | None => False
   end.
 Proof. vm_compute. auto. Qed.
+
+(* flush into an empty store, collapse at depth 1 / reopen from the root, then read, update and expand through the store *)
+Example C10_ex_store :
+  let t := run ex_ops1 in
+  let st := flush toyH t [] in
+  let c := collapse toyH 1 t in
+  let r := HashRef (root toyH t) in
+  sget 9 st c [1;2;3;5] = Some [9%N] /\ sget 9 st r [1;2] = Some [8%N] /\ sget 9 st r [1;2;3;4] = None /\
+  expand 9 st r = Some t /\ expand 9 st c = Some t /\
+  omap (root toyH) (sput 9 st r [1;2;3;6] [4%N]) = Some (root toyH (put t [1;2;3;6] [4%N])) /\
+  omap (root toyH) (sdelete 9 st r [1;2;3;5]) = Some (root toyH (delete t [1;2;3;5])) /\
+  omap (root toyH) (sput_batch st c [([1;2], None); ([1;2;0;0], None); ([7], Some [3%N])]) =
+    Some (root toyH (put_batch t [([1;2], None); ([1;2;0;0], None); ([7], Some [3%N])])) /\
+  sdelete 9 [] r [1;2] = None.
+Proof. vm_compute. repeat split; reflexivity. Qed.
